@@ -15,10 +15,10 @@ def main():
     src = sys.argv[3] if len(sys.argv) > 3 else "/tmp/seed/%s/%s" % (pid, x)
     meta = json.load(open(os.path.join(src, "meta.json")))
     demo_cmd = meta["demo_cmd"]
-    m = re.search(r"<repo>/(\S+_test\.go)", demo_cmd)
+    m = re.search(r"<repo>/(\S+_test\.go)", demo_cmd) or re.search(r"cp\s+\S*demo_test\.go\s+(\S+_test\.go)", demo_cmd)
     if not m:
         print("cannot find demo target in demo_cmd"); return 2
-    target = m.group(1)
+    target = m.group(1).lstrip("./")
     run = re.search(r"(go test .*)$", demo_cmd).group(1)
     wt = "/tmp/confirm_%s_%s_%d" % (pid, x, os.getpid())
     subprocess.run(["git", "-C", "/repo", "worktree", "add", "-q", "--detach", wt, "HEAD"], check=True)
